@@ -3,6 +3,7 @@ CONSTANTS
   Configs <- QSelectConfigs
   Fixed = TRUE
   AllowForeignClose = TRUE
+  AllowCancel = TRUE
 VIEW View
 INVARIANT PacketBoundary
 INVARIANT NoStaleOutput
